@@ -192,6 +192,41 @@ Theorem c16_pointwise_fill_is_deletion :
 Proof. intros K. exact (@pointwise_fill_is_deletion K). Qed.
 Print Assumptions c16_pointwise_fill_is_deletion.
 
+(* SENTINEL COLLISIONS.  Missingness is the NaN pattern of the targets ([is_obs]), never their
+   value: an observed target is an ordinary datum whatever it is - in particular when it equals
+   the fill value - and the 'fill' results do not depend on the fill value *)
+Theorem c16_fill_observed_value_is_ordinary :
+  forall (K : Fld) fv (y : nvec) (g : car -> nat -> car) i x,
+    y i = Some x -> pointwise_fill fv y g i = g x i.
+Proof. intros K. exact (@pointwise_fill_observed K). Qed.
+Print Assumptions c16_fill_observed_value_is_ordinary.
+
+Theorem c16_fill_value_irrelevant :
+  forall (K : Fld) fv fv' (y : nvec) (g : car -> nat -> car) i,
+    pointwise_fill fv y g i = pointwise_fill fv' y g i.
+Proof. intros K. exact (@pointwise_fill_value_irrelevant K). Qed.
+Print Assumptions c16_fill_value_irrelevant.
+
+(* deriving the mask from the FILLED tensor ("target == fill value") is deletion only as long as
+   no observed target collides with the fill value ... *)
+Theorem c16_fill_by_value_needs_no_collision :
+  forall (K : Fld) eqb fv (y : nvec) (g : car -> nat -> car),
+    eqb fv fv = true -> (forall i x, y i = Some x -> eqb x fv = false) ->
+    forall i, pointwise_fill_by_value eqb fv y g i = pointwise_fill fv y g i.
+Proof. intros K. exact (@pointwise_fill_by_value_no_collision K). Qed.
+Print Assumptions c16_fill_by_value_needs_no_collision.
+
+(* ... and is refuted when one does (one observed target -999, g = 1: 0 instead of 1), while the
+   code's reading ([pointwise_fill], mask = isnan before filling) is deletion on the same data *)
+Theorem c16_fill_by_value_refuted :
+  exists (n : nat) (fv : Qcanon.Qc) (y : @nvec QcF) (g : Qcanon.Qc -> nat -> Qcanon.Qc),
+    is_obs y O = true /\ y O = Some fv /\
+    @sum QcF n (@pointwise_fill_by_value QcF Qcanon.Qc_eq_bool fv y g)
+    <> @sum QcF (nobs n (is_obs y)) (@pointwise_del QcF n y g) /\
+    @sum QcF n (@pointwise_fill QcF fv y g) = @sum QcF (nobs n (is_obs y)) (@pointwise_del QcF n y g).
+Proof. exact pointwise_fill_by_value_differs. Qed.
+Print Assumptions c16_fill_by_value_refuted.
+
 (* the hypotheses of the fill theorems are satisfiable (the data of c16_cov_without_mask_differs) *)
 Example ex_c16_fill_hypotheses :
   exists Afinv : @M QcF,
